@@ -787,6 +787,33 @@ func (e *Engine) loopCtx(p *Path, fr *Frame, li *loopInfo, pre *State) *EvalCtx 
 	}
 	ctx := e.funcCtx(p, fr, pre)
 	ctx.lookup = func(name string) (TV, bool) { return e.resolveLocal(p, fr, li.header, name) }
+	// a parameter that the loop reassigns: inside loop clauses its name means the current value (the
+	// phi at the loop header), and NAME0 the value the function was entered with
+	for _, prm := range fr.fn.Params {
+		var cur *ssa.Phi
+		for _, b := range fr.fn.Blocks {
+			if !(b == li.header || b.Dominates(li.header)) {
+				continue
+			}
+			for _, in := range b.Instrs {
+				ph, ok := in.(*ssa.Phi)
+				if !ok {
+					break
+				}
+				if ph.Comment == prm.Name() {
+					if _, defined := fr.env[ph]; defined && (cur == nil || cur.Block().Dominates(b)) {
+						cur = ph
+					}
+				}
+			}
+		}
+		if cur != nil {
+			if ev, has := ctx.env[prm.Name()]; has {
+				ctx.env[prm.Name()+"0"] = ev
+			}
+			ctx.env[prm.Name()] = TV{V: fr.env[cur], T: cur.Type()}
+		}
+	}
 	return ctx
 }
 
